@@ -439,13 +439,31 @@ class MetaDataReplace(MosFile):
         """
         return self.base_tag.find('roSlug').text
 
+    @staticmethod
+    def _find_metadata_block(parent: Element, block: Element) -> Tuple[Optional[Element], Optional[int]]:
+        """
+        Find the ``mosExternalMetadata`` child of *parent* whose ``mosSchema``
+        equals that of *block* and return ``(child, index)`` or ``(None, None)``
+        """
+        schema = block.find('mosSchema')
+        for i, child in enumerate(parent):
+            if child.tag == 'mosExternalMetadata':
+                child_schema = child.find('mosSchema')
+                if schema is not None and child_schema is not None and child_schema.text == schema.text:
+                    return (child, i)
+        return (None, None)
+
     def merge(self, ro: RunningOrder) -> RunningOrder:
         """
         Merge into the :class:`RunningOrder` object provided.
         """
         for source in self.base_tag:
             source = copy.deepcopy(source)
-            target, target_index = find_child(parent=ro.base_tag, child_tag=source.tag)
+            if source.tag == 'mosExternalMetadata':
+                # only a block with the same mosSchema is replaced
+                target, target_index = self._find_metadata_block(ro.base_tag, source)
+            else:
+                target, target_index = find_child(parent=ro.base_tag, child_tag=source.tag)
             if target is None:
                 insert_node(parent=ro.base_tag, node=source, index=len(ro.base_tag))
             else:
